@@ -76,6 +76,28 @@ def _cases(draw, tier):
     d = len(cfg["sig"])
     n = 2 ** d
     big = d >= 6
+    if big and draw(st.integers(0, 2)) == 0:
+        # graded=True on a lazily built algebra: operands are complete grades, most steps read basis blades
+        cfg["basis"] = None
+        grades = draw(st.lists(st.sampled_from([0, 1, d - 1, d]), min_size=1, max_size=3, unique=True))
+        canon = S.canon_sorted(range(n))
+        pool = [{"keys": [k for k in canon if bin(k).count("1") == g], "vals": None} for g in grades]
+        for o in pool:
+            o["vals"] = [draw(S.fracs(zero_prob=0.1)) for _ in o["keys"]]
+        steps = []
+        idx_ = st.integers(0, len(pool) - 1)
+        for _ in range(draw(st.integers(3, 16))):
+            k = draw(st.sampled_from(["blade", "blade", "blade", "bin", "un", "fb"]))
+            if k == "blade":
+                # blades of low grade, several of the same grade
+                steps.append({"k": k, "b": draw(st.sampled_from([1, 2, 4, 8, 3, 5, 6, 0, 64, 16])), "form": draw(st.sampled_from(["getitem", "attr"]))})
+            elif k == "bin":
+                steps.append({"k": k, "op": draw(st.sampled_from(["add", "sub", "ip", "op", "gp"])), "i": draw(idx_), "j": draw(idx_)})
+            elif k == "un":
+                steps.append({"k": k, "op": draw(st.sampled_from(["neg", "reverse", "involute"])), "i": draw(idx_)})
+            else:
+                steps.append({"k": k, "op": draw(st.sampled_from(["ip", "op", "add"])), "r": draw(st.integers(0, 20)), "j": draw(idx_), "side": "l"})
+        return {"cfg": cfg, "wrapper": draw(st.booleans()), "cse": True, "pool": pool, "steps": steps, "threads": None, "graded": True}
     pool = []
     for _ in range(draw(st.integers(1, 4))):
         o = draw(S.operand(d, classes=["single", "sparse", "sparse", "puregrade", "perm"], max_len=3 if big else (4 if d >= 4 else 5), zero_prob=0.05))
@@ -205,7 +227,7 @@ class Env:
 
     def __init__(self, case):
         self.case = case
-        self.alg = kd.build_algebra(case["cfg"], cse=case["cse"], wrapper=case["wrapper"])
+        self.alg = kd.build_algebra(case["cfg"], cse=case["cse"], wrapper=case["wrapper"], graded=bool(case.get("graded")))
         self.pool = [kd.mk(self.alg, o["keys"], _pool_values(o)) for o in case["pool"]]
         self.slots = []        # [(reg step, registered object, nargs)]
         self.results = []      # multivectors returned by earlier steps (operands of "fb" steps)
@@ -561,6 +583,8 @@ def evaluate(case):
     for kind_ in ("fb", "blade", "sinv", "mut"):
         if any(s_["k"] == kind_ for s_ in steps):
             labels.append(f"step:{kind_}")
+    if case.get("graded"):
+        labels.append("opt:graded-lazy")
     if any(o.get("sym") for o in case["pool"]):
         labels.append("pool:symbol-mixed")
     if reorder:
